@@ -91,6 +91,9 @@ fn virtual_wall() -> DateTime<Utc> {
 
 #[derive(Debug, Clone, Default, PartialEq)]
 pub struct RecGlobal {
+    /// part of the configured initial engine state (7), not of `Default` (0): every backtest must
+    /// start from the state it was configured with
+    pub marker: u64,
     pub seen: Vec<u64>,
     /// max over the events this engine processed of (exchange time - wall instant it was processed):
     /// no timestamp derived from this backtest's own clock can exceed `ahead + now`
@@ -221,6 +224,7 @@ pub struct RecOut {
     pub calls: u64,
     pub global_seen: Vec<u64>,
     pub clock_breach: Option<(i64, String)>,
+    pub global_marker: u64,
     pub inst_seen: Vec<Vec<u64>>,
     pub fills: Vec<Vec<FillRec>>,
     pub positions: Vec<Option<(bool, Decimal, Decimal)>>,
@@ -253,6 +257,7 @@ impl AlgoStrategy for BtStrategy {
             s.calls += 1;
             s.global_seen = state.global.seen.clone();
             s.clock_breach = state.global.breach.clone();
+            s.global_marker = state.global.marker;
             s.inst_seen = state.instruments.0.values().map(|i| i.data.seen.clone()).collect();
             s.fills = state.instruments.0.values().map(|i| i.data.fills.clone()).collect();
             s.positions = state
@@ -395,6 +400,11 @@ pub struct ScenarioG {
     /// serve the dataset through the real `MarketDataInMemory` (unpaced) instead of the paced seam
     #[serde(default)]
     pub in_memory: bool,
+    /// a second venue is tracked (one more instrument, never traded, no execution link) and every
+    /// `relabel`-th dataset event carries that venue's label although its instrument is listed on the
+    /// first one - a consolidated / relayed recording (0 = off)
+    #[serde(default)]
+    pub relabel: usize,
 }
 
 pub struct SimG;
@@ -413,8 +423,14 @@ struct BtResult {
     id: String,
 }
 
-fn instruments_g(n: usize) -> IndexedInstruments {
-    IndexedInstruments::new(PAIRS_G.iter().take(n.clamp(1, 3)).map(|(b, q)| spot(EX, b, q)).collect::<Vec<_>>())
+const EX2: ExchangeId = ExchangeId::Kraken;
+
+fn instruments_g(n: usize, second_venue: bool) -> IndexedInstruments {
+    let mut v = PAIRS_G.iter().take(n.clamp(1, 3)).map(|(b, q)| spot(EX, b, q)).collect::<Vec<_>>();
+    if second_venue {
+        v.push(spot(EX2, "xrp", "usdt"));
+    }
+    IndexedInstruments::new(v)
 }
 
 /// Independent realised-PnL accounting over closed positions (from the documented position rules).
@@ -476,8 +492,8 @@ where
     M: BacktestMarketData<Kind = DataKind> + Send + Sync + 'static,
     F: FnOnce(Vec<MarketStreamEvent<InstrumentIndex, DataKind>>, Vec<Vec<u64>>) -> M,
 {
-    let instruments = instruments_g(sc.n_inst);
-    let n_inst = instruments.instruments().len();
+    let instruments = instruments_g(sc.n_inst, sc.relabel > 0);
+    let n_inst = sc.n_inst.clamp(1, 3);
     let events: Vec<MarketStreamEvent<InstrumentIndex, DataKind>> = {
         let mut t = 0i64;
         sc.events
@@ -485,7 +501,8 @@ where
             .enumerate()
             .map(|(k, (inst, price, dt))| {
                 t += dt;
-                MarketStreamEvent::Item(mk_public_trade(EX, inst % n_inst, t, *price as f64, &k.to_string()))
+                let label = if sc.relabel > 0 && k % sc.relabel == sc.relabel - 1 { EX2 } else { EX };
+                MarketStreamEvent::Item(mk_public_trade(label, inst % n_inst, t, *price as f64, &k.to_string()))
             })
             .collect()
     };
@@ -493,7 +510,8 @@ where
         return Ok((vec![], 0));
     }
     let n_events = events.len() as u64;
-    let assets: Vec<(AssetIndex, String)> = instruments.assets().iter().map(|a| (a.key, a.value.asset.name_exchange.name().to_string())).collect();
+    let assets: Vec<(AssetIndex, String)> =
+        instruments.assets().iter().filter(|a| a.value.exchange == EX).map(|a| (a.key, a.value.asset.name_exchange.name().to_string())).collect();
     let bal_of = |name: &str| if name == "usdt" { Decimal::from(sc.init_quote) } else { Decimal::from(1_000) };
     let mock = MockExecutionConfig {
         mocked_exchange: EX,
@@ -512,7 +530,7 @@ where
         latency_ms: sc.latency_ms,
         fees_percent: Decimal::new(sc.fee_bp, 4),
     };
-    let engine_state: StG = EngineState::builder(&instruments, RecGlobal::default(), RecData::default)
+    let engine_state: StG = EngineState::builder(&instruments, RecGlobal { marker: 7, ..Default::default() }, RecData::default)
         .time_engine_start(ts(0))
         .trading_state(TradingState::Enabled)
         .balances(assets.iter().map(|(_, n)| Keyed::new(ExchangeAsset::new(EX, AssetNameInternal::from(n.as_str())), Balance::new(bal_of(n), bal_of(n)))))
@@ -660,6 +678,7 @@ impl Sim for SimG {
             hook_seed: rng.next_u64(),
             tokio_seed: rng.next_u64(),
             in_memory,
+            relabel: if rng.chance(1, 5) { 2 + rng.usize(5) } else { 0 },
         }
     }
 
@@ -729,6 +748,10 @@ impl Sim for SimG {
                             seen.len(), expect_i.len(), seen.get(k), expect_i.get(k)
                         );
                     }
+                }
+                // the engine started from the configured initial state (user data included)
+                if r.rec.calls > 0 && r.rec.global_marker != 7 {
+                    fail!('run, "G3_isolation", j, "backtest {j} of {n_bt}: its engine's global data carries marker {} instead of the configured 7: it did not start from the shared initial engine state", r.rec.global_marker);
                 }
                 // G4: timestamps the exchange put on this backtest's fills / balances come from this
                 // backtest's own clock (its own events + elapsed wall time), never from another's progress
@@ -818,6 +841,9 @@ impl Sim for SimG {
             if sc.events.iter().any(|e| e.2 < 0) {
                 stats.probe("dataset_not_chronological");
             }
+            if sc.relabel > 0 && n_events as usize >= sc.relabel {
+                stats.probe("events_labelled_with_relaying_venue");
+            }
             if sc.in_memory && n_events >= 1024 {
                 stats.probe("in_memory_dataset_over_1k_events");
             }
@@ -871,6 +897,11 @@ impl Sim for SimG {
             s.in_memory = false;
             out.push(s);
         }
+        if sc.relabel > 0 {
+            let mut s = sc.clone();
+            s.relabel = 0;
+            out.push(s);
+        }
         for (k, b) in sc.backtests.iter().enumerate() {
             if b.pacing != vec![1] {
                 let mut s = sc.clone();
@@ -914,6 +945,7 @@ impl Sim for SimG {
             "in_memory_dataset_over_1k_events",
             "slow_market_source_over_30s",
             "dataset_not_chronological",
+            "events_labelled_with_relaying_venue",
         ]
     }
     fn assumptions(&self) -> Vec<String> {
